@@ -5,6 +5,7 @@ import random
 
 import cluster
 import common
+import nuncluster
 import render
 
 PROP = "C04"
@@ -79,20 +80,86 @@ def cases_for(tier, seed):
     return cases
 
 
+MODEL_OPS = [
+    {"op": "set", "k": "k", "v": "a", "ver": -1},
+    {"op": "set", "k": "k", "v": "b", "ver": 1},      # versioned, current
+    {"op": "set", "k": "k", "v": "c", "ver": 0},      # versioned, stale
+    {"op": "increment", "k": "c", "n": 2},
+    {"op": "remove", "k": "k"},
+]
+
+
+def model_scenarios(tier):
+    """NunCluster scenarios: one command of every kind at every node (all delivery orders),
+    two commands (properties checked exhaustively on the state graph, schedules simulated)."""
+    one, two = [], []
+    n = 0
+    for nodes in (["n1", "n2"], ["n1", "n2", "n3"]):
+        for node in nodes:
+            for op in MODEL_OPS:
+                one.append(nuncluster.Scenario("o%d" % n, nodes, {"k": ("v0", 1), "c": ("5", 0)}, [dict(op, node=node)]))
+                n += 1
+    pairs = [(0, 4), (3, 3), (1, 2), (4, 0), (2, 3)]
+    for nodes in (["n1", "n2"], ["n1", "n2", "n3"]):
+        for a, b in pairs:
+            for na, nb in ((nodes[0], nodes[0]), (nodes[0], nodes[-1]), (nodes[-1], nodes[0])):
+                two.append(nuncluster.Scenario("p%d" % n, nodes, {"k": ("v0", 1), "c": ("5", 0)},
+                                               [dict(MODEL_OPS[a], node=na), dict(MODEL_OPS[b], node=nb)]))
+                n += 1
+    return one, two
+
+
+def model_part(tier, seed, wd, res):
+    import random as _r
+    rnd = _r.Random(seed)
+    one, two = model_scenarios(tier)
+    s1, g1, d1 = nuncluster.explore(one, wd, cap=(12 if tier == "quick" else 300), rnd=rnd)
+    # two commands: the properties on the whole state graph (history hidden), schedules by simulation
+    if tier == "quick":
+        two = two[::3]
+    _, g2, d2 = nuncluster.explore(two, os.path.join(wd, "chk"), generate=False, timeout=1500)
+    s2, g3, d3 = nuncluster.explore(two, os.path.join(wd, "sim"), simulate=(6 if tier == "quick" else 60))
+    cases = []
+    by = {s.sid: s for s in one + two}
+    for sid, scheds in list(s1.items()) + list(s2.items()):
+        for i, sch in enumerate(scheds):
+            cases.append(by[sid].sim_case("%s#%d" % (sid, i), sch, seed + i))
+    res.coverage.update({"states": d1 + d2 + d3, "transitions": g1 + g2 + g3,
+                         "model": "NunCluster.tla: %d one-command scenarios (all delivery orders), %d two-command "
+                                  "scenarios (exhaustive on the state graph incl. liveness EventuallyQuiet; "
+                                  "schedules by simulation)" % (len(one), len(two)),
+                         "model_generated_cases": len(cases)})
+    return cases
+
+
+def schedule_stats(raws):
+    """how faithfully the simulator followed the TLC-generated schedules (model drift)"""
+    runs = used = drift = 0
+    for rf in raws:
+        for line in open(rf):
+            if '"ev":"end"' in line and "#" in line:
+                e = json.loads(line)
+                if "#" in e["run"]:
+                    runs += 1
+                    used += e.get("schedule_used", 0)
+                    drift += e.get("drift", 0)
+    return {"schedule_replays": runs, "schedule_steps_followed": used - drift, "schedule_steps_drifted": drift}
+
+
 def run(tier, seed, prop=PROP, checks=CHECKS):
     res = common.Result(prop, tier, seed, "model_checking")
     wd = common.workdir(prop)
     devs, known = common.load_findings(prop)
-    cases = cases_for(tier, seed)
+    cases = model_part(tier, seed, wd, res) + cases_for(tier, seed)
     raws = common.run_cases_parallel("cluster", cases, wd, procs=12, timeout=3000,
                                      env={"NUN_ELECTION_TIMEOUT": "10"})
     norm_path = os.path.join(wd, "norm.ndjson")
     cluster.normalize(raws, norm_path)
+    res.coverage.update(schedule_stats(raws))
     out = common.validate_into(res, norm_path, "Trace_Cluster.tla", "Trace_Cluster.cfg", checks, devs,
                                "/dev/null", wd, {c["id"]: c for c in cases})
     res.coverage.update({
-        "states": out["states"], "transitions": out["events"],
-        "model": "Trace_Cluster.tla (ClusterMonitor reference)",
+        "reference": "Trace_Cluster.tla (ClusterMonitor)",
         "traces_validated_against_impl": out["runs"], "events_validated": out["events"],
         "cases": len(cases),
         "samples": [[o["line"] + " @" + o["node"] for o in cases[len(cases) // 3]["ops"]]],
